@@ -221,6 +221,7 @@ def run_check(prop, tier, budget_s, workers):
                 known_hits[k["what"]] = k
         if not unknown:
             continue
+        unknown.sort(key=lambda of: 0 if of[1].get("witness", "real") == "real" else 1)
         out, f = unknown[0]
         if out["kind"] == "seeded":
             seed, case = _case_for(prop, root_seed, out["idx"], tier)
@@ -247,7 +248,7 @@ def _report_violation(prop, key, seed, case, f, known):
     from sim.shrink import shrink, write_replay
 
     oracle = key[1]
-    small, f2, used = shrink(prop, oracle, case)
+    small, f2, used = shrink(prop, oracle, case, witness=f.get("witness"))
     if f2 is None:
         harness_error(f"nondeterministic-violation property={prop} oracle={oracle} seed={seed} (did not reproduce in-process)")
     if match_known(f2, known) is not None:
